@@ -145,6 +145,28 @@ def run(ctx):
     unit_ok = mb is not None and isinstance(e, ast.Call) and self_attr(e.func) == mb.name and e.args and isinstance(e.args[0], ast.Call) and \
         norm(e.args[0].func).endswith('getsize')
     conv_ok = mb is not None and any(isinstance(n, ast.BinOp) and isinstance(n.op, ast.Div) and '1024' in norm(n.right) for n in ast.walk(mb.node))
+    # the conversion is exact: a plain true division of the byte count (rounding / truncation would move files across the limit)
+    if mb is not None:
+        from .. import paths as _paths
+        try:
+            tbl = _paths.return_paths(mb.node)
+        except _paths.Unsupported as ex:
+            raise AnalysisError('size conversion has a shape the path table does not model: %s' % ex)
+        mp = mb.params[-1] if mb.params else None
+
+        def exact(v):
+            return isinstance(v, ast.BinOp) and isinstance(v.op, ast.Div) and \
+                (isinstance(v.left, ast.Name) and v.left.id == mp or
+                 (isinstance(v.left, ast.Call) and isinstance(v.left.func, ast.Name) and v.left.func.id == 'float' and len(v.left.args) == 1 and
+                  isinstance(v.left.args[0], ast.Name) and v.left.args[0].id == mp)) and \
+                not any(isinstance(x, (ast.Name, ast.Call)) for x in ast.walk(v.right))
+        inexact = [p for p in tbl if p.value is None or not exact(p.value)]
+        ca.instance('byte count converted by an exact division (%s)' % '; '.join(p.text() for p in tbl), mb.qualname, not inexact and bool(tbl))
+        if inexact or not tbl:
+            res.add(Finding('C20', 'C20.a', 'R-DOM', mb.file, mb.qualname, mb.node.lineno, 'size conversion',
+                            'the size handed to the limit test is `%s`, not the exact quotient of the byte count: rounding / truncation lets a file '
+                            'slightly above the limit compare as within it (it is then read into the recording)' % (
+                                inexact[0].text() if inexact else 'nothing')))
     ca.instance('size converted from bytes to MB by one conversion before the comparison with the MB limit', above.qualname, unit_ok and conv_ok)
     if not (unit_ok and conv_ok):
         res.add(Finding('C20', 'C20.a', 'R-DOM', above.file, above.qualname, above.node.lineno, 'units of the size test',
@@ -218,6 +240,44 @@ def run(ctx):
                         norm(enc_elsewhere[0]) if enc_elsewhere else 'content encoding',
                         'the file content is not base64-encoded as one unit (chunks encoded separately and concatenated end in padding, and '
                         'b64decode stops at the first padding): content beyond the first chunk is silently lost on restore'))
+    # no further value transformation on either side unless it is unconditional and inverted unconditionally on the other side
+    def transforms(fn, seeds):
+        names = set(seeds)
+        out = []
+        changed = True
+        while changed:
+            changed = False
+            for n in walk_own(fn.node):
+                if isinstance(n, ast.Assign) and isinstance(n.targets[0], ast.Name) and n.targets[0].id not in names and \
+                        any(isinstance(x, ast.Name) and x.id in names for x in ast.walk(n.value)):
+                    names.add(n.targets[0].id)
+                    changed = True
+        cond_nodes = {id(x) for c in walk_own(fn.node) if isinstance(c, (ast.If, ast.Try, ast.IfExp, ast.For, ast.While)) for x in ast.walk(c)
+                      if not (isinstance(c, ast.If) and 'PY2' in norm(c.test))}
+        for n in walk_own(fn.node):
+            if isinstance(n, ast.Call) and any(isinstance(a, ast.Name) and a.id in names for a in n.args):
+                f = norm(n.func)
+                last = f.split('.')[-1]
+                if last in ('b64encode', 'b64decode', 'len', 'format', 'bytes', 'str') or f.startswith('_logger') or f.startswith('logging') or \
+                        (isinstance(n.func, ast.Attribute) and n.func.attr in ('encode', 'decode') and n.args and isinstance(n.args[0], ast.Constant)):
+                    continue
+                out.append((n, last, id(n) in cond_nodes))
+        return out
+    des_seed = [n.targets[0].id for n in walk_own(des.node) if isinstance(n, ast.Assign) and isinstance(n.targets[0], ast.Name) and
+                any(isinstance(x, ast.Subscript) for x in ast.walk(n.value))]
+    ts, td = transforms(ser, ser.params[:1]), transforms(des, des_seed)
+    inv = {'compress': 'decompress', 'decompress': 'compress'}
+    sym_ok = sorted(t[1] for t in ts) == sorted(inv.get(t[1], '?') for t in td) and not any(t[2] for t in ts + td)
+    cc.instance('no conditional / unpaired value transformation beside base64 (serialise %s, deserialise %s)' % ([t[1] for t in ts], [t[1] for t in td]),
+                fi.name, sym_ok)
+    cc.evaluations += len(ts) + len(td) + 1
+    if not sym_ok:
+        bad_t = (ts + td)[0]
+        res.add(Finding('C20', 'C20.c', 'R-AGREE', (ser if bad_t in ts else des).file, (ser if bad_t in ts else des).qualname, bad_t[0].lineno, norm(bad_t[0])[:100],
+                        'beside base64 the content passes through `%s` %s (serialise: %s, deserialise: %s): the decoder has to guess what the '
+                        'encoder did, so some contents are not restored byte-identically' % (
+                            bad_t[1], 'under a condition / with a fallback' if bad_t[2] else 'without an unconditional inverse on the other side',
+                            [t[1] for t in ts], [t[1] for t in td])))
     # envelope keys
     def dict_keys(fn):
         ks = set()
